@@ -28,7 +28,7 @@
 #include "hash.h"
 
 static char *magic_id = "NEOL";
-static uint32_t driver_id = 0x20260113; /* increment when driver changes */
+static uint32_t driver_id = 0x20260928; /* increment when driver changes */
 static uint64_t config_id = 0;
 static char simul_efun_path[PATH_MAX] = "";	/* the simul_efun file, relative to the mudlib */
 
@@ -38,6 +38,7 @@ static void patch_in (program_t *, short *, size_t);
 static int str_case_cmp (char *, char *);
 static int check_times (time_t, const char *);
 static int inherited_program_newer (time_t, program_t *);
+static int file_checksum (FILE *, long, uint32_t *);
 static int locate_in (program_t *);
 static int locate_out (program_t *);
 
@@ -257,8 +258,58 @@ void save_binary (program_t * prog, mem_block_t * includes, mem_block_t * patche
   fwrite (patches->block, patches->current_size, 1, f);
 
   fclose (f);
+
+  /*
+   * [WRITE_CHECKSUM]
+   * load_binary() trusts every size, count and offset in the file; a checksum over
+   * everything written so far lets it reject a damaged or incomplete file instead.
+   * - 32-bit checksum of all preceding bytes
+   */
+  if ((f = fopen (file_name, "rb+")))
+    {
+      uint32_t sum;
+      long size;
+
+      fseek (f, 0, SEEK_END);
+      size = ftell (f);
+      if (file_checksum (f, size, &sum))
+        {
+          fseek (f, 0, SEEK_END);
+          fwrite ((char *) &sum, sizeof (sum), 1, f);
+        }
+      fclose (f);
+    }
   opt_trace (TT_COMPILE|1, "done: /%s", file_name);
 }				/* save_binary() */
+
+/*
+ * FNV-1a over the first `size` bytes of the file.  Returns 0 if they cannot be read.
+ */
+static int
+file_checksum (FILE * f, long size, uint32_t * sum)
+{
+  unsigned char block[4096];
+  uint32_t h = 2166136261u;
+
+  if (size < 0 || fseek (f, 0, SEEK_SET) != 0)
+    return 0;
+  while (size > 0)
+    {
+      size_t want = size > (long) sizeof (block) ? sizeof (block) : (size_t) size;
+      size_t got = fread (block, 1, want, f), k;
+
+      if (got != want)
+        return 0;
+      for (k = 0; k < got; k++)
+        {
+          h ^= block[k];
+          h *= 16777619u;
+        }
+      size -= (long) got;
+    }
+  *sum = h;
+  return 1;
+}
 
 static program_t *comp_prog;
 
@@ -475,6 +526,24 @@ program_t *load_binary (const char *name) {
   }
 
   opt_trace (TT_COMPILE|3, "found saved binary: %s", file_name);
+
+  /*
+   * [READ_CHECKSUM]
+   * The last 4 bytes are the checksum of everything before them.
+   */
+  {
+    uint32_t sum = 0, bin_sum = 0;
+    long body = (long) st.st_size - (long) sizeof (bin_sum);
+
+    if (body < 0 || !file_checksum (f, body, &sum)
+        || fread ((char *) &bin_sum, sizeof (bin_sum), 1, f) != 1 || sum != bin_sum
+        || fseek (f, 0, SEEK_SET) != 0)
+      {
+        opt_trace (TT_COMPILE|1, "damaged or incomplete binary (checksum).");
+        fclose (f);
+        return OUT_OF_DATE;
+      }
+  }
 
   /* Check if the source file is newer. */
   if (check_times (mtime, name) <= 0)
